@@ -172,6 +172,43 @@ Definition embed_layout (pre : Z) (p : pool) : Z * Z :=
   let lab := if palign p <=? 1 then pre else pre + align_up_diff pre (palign p) in
   (lab, lab + psize p).
 
+(* ---- BaseCompiler::_new_const: pool->add(data, size, Out(off)), then the operand BaseMem(..., from_size(uint32_t(size)),
+        pool->label_id(), 0, int32_t(off)): (offset field, size field) of the memory operand; None when add refuses (the operand
+        stays reset) *)
+Definition wrap_i32 (z : Z) : Z := (z + 2147483648) mod 4294967296 - 2147483648.
+Definition new_const_operand (p : pool) (data : list Z) (size : Z) : pool * option (Z * Z) :=
+  let '(p', r) := cp_add p data size in
+  match r with Ok off => (p', Some (wrap_i32 off, size)) | InvalidArgument => (p', None) end.
+
+(* ---- the structural constants of constpool.{h,cpp} the model is built from, as data. tools/c19_params.py re-extracts the
+        same record from /repo's source on every run (coq/gen/C19_Params.v proves the two equal); ConstPoolProofs.params_used
+        proves that the model functions above really are the ones determined by these constants. *)
+Record params := mkParams {
+  par_index_count : nat;                 (* ConstPool::kIndexCount *)
+  par_index_sizes : list (Z * nat);      (* enum Index: (bytes, index) for kIndex1 .. kIndex64 *)
+  par_gap_chain : list (Z * Z * nat * Z);(* ConstPool_addGap if-chain: (size >=, offset aligned to, gap index, gap size), in order *)
+  par_gap_else : nat * Z;                (* its final else branch *)
+  par_share_above : Z;                   (* while (smaller_size > N): sub-constants are shared down to N bytes *)
+  par_offset_bits : Z;                   (* width of Node::_offset *)
+  par_loop_same_bucket : bool;           (* the gap loop reads _gaps[tree_index] (not _gaps[gap_index]) *)
+  par_loop_breaks : bool;                (* the gap loop leaves after the first gap it finds *)
+  par_fill_clears_all : bool;            (* fill() starts with memset(dst, 0, _size) *)
+  par_fill_skips_shared : bool;          (* fill() copies only nodes with !_shared *)
+  par_new_const_disp_bits : Z            (* BaseCompiler::_new_const casts the offset to intN_t for the operand *)
+}.
+
+Definition model_params : params :=
+  mkParams 7 [(1, 0%nat); (2, 1%nat); (4, 2%nat); (8, 3%nat); (16, 4%nat); (32, 5%nat); (64, 6%nat)]
+    [(32, 32, 5%nat, 32); (16, 16, 4%nat, 16); (8, 8, 3%nat, 8); (4, 4, 2%nat, 4); (2, 2, 1%nat, 2)] (0%nat, 1)
+    4 32 true false true true 32.
+
+(* the if-chain of ConstPool_addGap driven by data *)
+Fixpoint gap_class_of (chain : list (Z * Z * nat * Z)) (els : nat * Z) (off sz : Z) : nat * Z :=
+  match chain with
+  | [] => els
+  | (ge, al, gi, gsz) :: r => if (ge <=? sz) && (off mod al =? 0) then (gi, gsz) else gap_class_of r els off sz
+  end.
+
 (* ---- histories *)
 Definition cmd := (list Z * Z)%type.   (* (data, size) *)
 
